@@ -130,6 +130,9 @@ macro_rules! get_u64 {
         match $a.get($k) {
             Some(v) => match u64_arg($results, v) {
                 Ok(x) => x,
+                // an argument that refers to the result of an earlier call which FAILED: the action cannot be formed - that is data
+                // about the code under test (the failed call is judged where it happened), not a harness error
+                Err(e) if e.contains("has no numeric value") => return json!({"k": "skip", "msg": format!("arg {}: {}", $k, e)}),
                 Err(e) => return harness_err(format!("arg {}: {}", $k, e)),
             },
             None => return harness_err(format!("missing arg {}", $k)),
